@@ -134,11 +134,13 @@ def gen_record(rng, kind, pbad):
             elif r == 8:
                 out.append(b"INLINE_ORIGIN " + dec() + S() + name())
             else:
-                out.append(b"")
+                out += [b""] * (1 + rng.below(3))      # blank line(s) inside the group
         return out
     if kind == "CFI":
         out = [b"STACK CFI INIT" + S() + h64() + S() + h32() + S() + rng.choice([b".cfa: $rsp 8 + .ra: .cfa -8 + ^", name()])]
         for _ in range(rng.below(4)):
+            if rng.chance(1, 8):
+                out += [b""] * (1 + rng.below(2))      # blank line(s) inside the group
             out.append(b"STACK CFI" + S() + h64() + S() + rng.choice([b".cfa: $rsp 16 +", b"$rbx: .cfa -16 + ^", name()]))
         return out
     if kind == "MODULE":
@@ -250,6 +252,8 @@ def sched_random(rng, total, style=None):
         return []
     if style == 1:
         c = rng.choice([1000, 4096, 65536, 10239, 10240, 10241, 5120, 5121, 20480, 40960, 81920, 81921, 163840, 163841, 7, 100])
+        if total // c > 4000:      # every read re-scans the buffer: keep tiny chunks for small inputs
+            c = 4096
         return ["%d*%d" % (c, total // c + 2)]
     toks, left = [], total
     n = 0
@@ -327,3 +331,40 @@ def boundary_files():
                 ps = [("1" if (p.startswith("{") and i != si) else (v if i == si else p)) for i, p in enumerate(parts)]
                 out.append(("MODULE Linux x86 ABC name\n" + "".join(ps) + "\nFILE 5 after\n").encode())
     return out
+
+
+# --------------------------------------------------------------------------- blank lines in and between groups
+def blank_group_files():
+    """(data, offsets of interest): blank lines (LF / CRLF / CRCRLF, runs of 1..3) after a FUNC header, after a line
+    record, after STACK CFI INIT, after a STACK CFI delta, and between top-level records"""
+    out = []
+    body = [b"FUNC 1000 10 0 f", b"1000 4 1 1", b"1004 4 2 1", b"STACK CFI INIT 1000 10 .cfa: $esp 4 +",
+            b"STACK CFI 1004 .cfa: $esp 8 +", b"STACK CFI 1008 .cfa: $esp 12 +", b"FILE 1 a.c", b"PUBLIC 2000 0 g"]
+    for eol in (b"\n", b"\r\n", b"\r\r\n"):
+        for pos in range(len(body)):
+            for run in (1, 2, 3):
+                data = bytearray(b"MODULE Linux x86 ABC name" + eol)
+                marks = []
+                for i, l in enumerate(body):
+                    data += l + eol
+                    if i == pos:
+                        marks.append(len(data))
+                        data += eol * run
+                        marks.append(len(data))
+                out.append((bytes(data), marks))
+    return out
+
+
+def sched_line_starts(data, group=1):
+    """every read ends exactly at a line end (group lines per read): each line starts at a chunk boundary"""
+    toks, cur, k = [], 0, 0
+    for i, b in enumerate(data):
+        cur += 1
+        if b == 10:
+            k += 1
+            if k % group == 0:
+                toks.append(str(cur))
+                cur = 0
+    if cur:
+        toks.append(str(cur))
+    return toks
